@@ -27,10 +27,60 @@ def build_stream(c, P):
     return pre + sym + post
 
 
+def compositions(total, parts):
+    if parts == 1:
+        yield (total,)
+        return
+    for k in range(total + 1):
+        for rest in compositions(total - k, parts - 1):
+            yield (k,) + rest
+
+
+def frag_templates(F):
+    """frame-structure templates: a data message of F['L'] payload bytes split into 1..max_frags
+    fragments (empty fragments allowed), optionally with one empty Ping/Pong between two fragments,
+    optionally followed by a second small message"""
+    out = []
+    op = F.get('opcode', 1)
+    for nf in range(1, F.get('max_frags', 3) + 1):
+        for comp in compositions(F['L'], nf):
+            gaps = [None] + (list(range(1, nf)) if F.get('interleave', True) else [])
+            for g in gaps:
+                t = []
+                for i, ln in enumerate(comp):
+                    if g is not None and i == g:
+                        t.append((bytes([0x80 | F.get('ctrl', 9), 0]), 0))
+                    b0 = (op if i == 0 else 0) | (0x80 if i == nf - 1 else 0)
+                    t.append((bytes([b0, ln]), ln))
+                out.append(t)
+    return out
+
+
+def build_family(c, P):
+    F = P['family']
+    ts = frag_templates(F)
+    k = c.choose(len(ts), 'template')
+    stream = []
+    n = 0
+    for hdr, ln in ts[k]:
+        stream.extend(hdr)
+        for _ in range(ln):
+            stream.append(c.byte('p%d' % n))
+            n += 1
+    tail = F.get('tail_sym', 0)
+    for i in range(tail):
+        stream.append(c.byte('t%d' % i))
+    return stream, 'tmpl%d' % len(ts[k])
+
+
 def run_recv(c, P):
     L = lomond()
     w = new_world()
-    stream = build_stream(c, P)
+    tcls = None
+    if P.get('family'):
+        stream, tcls = build_family(c, P)
+    else:
+        stream = build_stream(c, P)
     w.default_script = HsThenCuts(w, hconn.server_stream(stream), P.get('cuts', 'one'), end='eof')
     if P.get('fault'):
         F = P['fault']
@@ -46,6 +96,8 @@ def run_recv(c, P):
     cls, ob = hconn.check_receive(c, w, rec, stream, P['tags'], auto_pong=auto_pong,
                                   bytewise_failfast=True)
     names = rec.names()
+    if tcls:
+        cls.add(tcls)
     return {'cls': sorted(cls) or ['_plain'], 'sample': {'events': names[3:]},
             'observe': {'events': names, 'wire': wire_summary(w)}}
 
